@@ -65,4 +65,34 @@ def runRuleSt' {α} (A : Arith α) (c : Case) (s0 : St α) : Option (St α) :=
 
 def runRuleSt {α} (A : Arith α) (c : Case) : Option (St α) := runRuleSt' A c (initState A c)
 
+inductive Out (α : Type) | fuel | crash (k : String) | ok (acts : List (Act α))
+
+def finish {α} (A : Arith α) (r : Option (St α)) : Out α :=
+  match r with
+  | none => .fuel
+  | some s =>
+    match s.crash with
+    | some k => .crash k
+    | none =>
+      let s' := s.logAct A "end" "Count Complete" []
+      let nE := s'.elected.length
+      if nE == s'.seats || (nE < s'.seats && nE == s'.eligible.length) then
+        -- the Meek family keeps no per-ballot weights between distributions: no ballot view there
+        .ok ((s'.acts.reverse.filter (fun a => a.snap.isSome)).map
+              (fun a => if s'.method == .meek then { a with ws := [] } else a))
+      else .crash "AssertionError"
+
+/-- the decidable domain of the run-level theorems: what `ElectionProfile` + `Election.__init__` guarantee about a case
+    handed to a Gregory rule (distinct candidate ids; every ballot non-empty, naming existing, non-withdrawn candidates;
+    the ballot count is the sum of the multipliers; at least as many standing candidates as seats; no equal rankings).
+    The driver prints it for every correspondence input (`DOM=`), so the evidence says how many of the compared runs lie
+    inside the domain where `DroopProofs/CaseInit.lean` applies. -/
+def caseOK (c : Case) : Bool :=
+  decide ((c.cands.map (·.1)).Nodup)
+  && c.ballots.all (fun (_, r) => !r.isEmpty && r.all (fun cid =>
+        c.cands.any (fun (k, _, wd, _) => k == cid && !wd)))
+  && c.nballots == (c.ballots.map (·.1)).sum
+  && decide (c.seats ≤ (c.cands.filter (fun (_, _, wd, _) => !wd)).length)
+  && c.ballotsEq.isEmpty
+
 end Droop
